@@ -13,6 +13,9 @@
 3. harness/cmd/d_contract concretises the scenarios into real signed transactions and runs them on
    a real chain (one contract transaction per block, or two for "pair" operations), recording ledger
    projections, receipts and the effects observed by the probes.
+   Sandwich blocks (an operation + a balance change outside the contract environment + further contract
+   transactions of the same / another embedded / wasm contract in ONE block, 24 shapes) check that nothing
+   an earlier transaction leaves in the execution context of the block reaches the state with a later one.
 4. TLC validates the recorded trace against spec/Trace_ContractTx.tla: the clauses are evaluated on
    the OBSERVED pre/post states of every transaction (verdict); fee-formula drift is only reported.
 """
@@ -89,27 +92,27 @@ MOVERS = ("transfer", "push", "refund", "finishVoting", "terminate", "pay", "pay
 
 
 def sample_sandwiches(exports, rnd, budget):
-    """sandwich blocks: round robin over (contract, block shape); operations that move coins and are expected to succeed first"""
+    """sandwich blocks: per (lifecycle state, block shape) the operations that move coins and are expected to succeed
+    first; states x shapes are visited in seeded random order, best candidates first"""
+    def rank(e):
+        last = e["path"][-1]
+        return (not (last["good"] and last["m"] in MOVERS), last["m"] not in MOVERS, not last["good"], last["arg"] != "valid")
     groups = collections.defaultdict(list)
     for e in exports:
-        last = e["path"][-1]
-        groups[(e["c"], last["pair"])].append(e)
+        groups[(e["c"], e["w"], json.dumps(e["path"][:-1]), e["path"][-1]["pair"])].append(e)
     keys = sorted(groups)
+    rnd.shuffle(keys)
     for k in keys:
         rnd.shuffle(groups[k])
-        groups[k].sort(key=lambda e: (not (e["path"][-1]["good"] and e["path"][-1]["m"] in MOVERS), not e["path"][-1]["good"],
-                                      e["path"][-1]["m"] not in MOVERS, e["path"][-1]["arg"] != "valid"))
-    rnd.shuffle(keys)
+        groups[k].sort(key=rank)
     res, i = [], 0
     while len(res) < budget and keys:
-        nxt = []
-        for k in keys:
-            if i < len(groups[k]):
-                res.append(groups[k][i])
-                nxt.append(k)
-                if len(res) >= budget:
-                    break
-        keys = nxt
+        # within a pass the groups whose candidate is better come first
+        keys = [k for k in keys if i < len(groups[k])]
+        for k in sorted(keys, key=lambda k: rank(groups[k][i])):
+            res.append(groups[k][i])
+            if len(res) >= budget:
+                break
         i += 1
     return res
 
@@ -247,7 +250,7 @@ def main(ctx):
     ro.exports.sort(key=lambda e: json.dumps(e, sort_keys=True))
     budget = 900 if quick else 12000
     cases = sample_cases([e for e in ro.exports if not is_sandwich(e)], rnd, budget)
-    sandwiches = sample_sandwiches([e for e in ro.exports if is_sandwich(e)], rnd, 300 if quick else 3000)
+    sandwiches = sample_sandwiches([e for e in ro.exports if is_sandwich(e)], rnd, 300 if quick else 4000)
     # scenarios behind the > 30000 blocks of waiting (thorough only): a bounded number, cheapest deviations first
     isdeep = lambda c: any(o["m"] == "longwait" for o in c["path"][:-1])
     deep = sorted([c for c in cases if isdeep(c)], key=lambda c: (dev(c["c"], c["path"][-1]), json.dumps(c["path"][-1])))
@@ -445,7 +448,7 @@ def main(ctx):
                 "embedded, 5 bundled wasm and 1 hand-assembled wasm contracts: %d sampled transitions (all well-formed ones) + %d random walks of 24 operations, "
                 "each executed on a real chain, one contract transaction per block (two for pair operations); %d sandwich blocks "
                 "(operation + balance change outside the contract environment + further contract transactions of the same / another "
-                "embedded / wasm contract, 20 shapes, body order chosen through the repository's block assembly shim)"
+                "embedded / wasm contract, 24 shapes, body order chosen through the repository's block assembly shim)"
                 % (2 if quick else 3, len(cases), len(walks), len(sandwiches)),
     }
     return vlib.finish(ctx, "model_checking", cov, assumptions=[
